@@ -170,6 +170,11 @@ func r3NewTarget() *r3Target {
 	if err != nil {
 		panic(err)
 	}
+	return r3NewTargetOn(l)
+}
+
+// r3NewTargetOn serves the scripted target on a listener the caller opened (round 4: a socket that starts listening late).
+func r3NewTargetOn(l net.Listener) *r3Target {
 	t := &r3Target{l: l, Addr: l.Addr().String()}
 	t.Base = "http://" + t.Addr
 	go func() {
